@@ -8,6 +8,8 @@ From Soy Require Import Model.Outcome.
 From Soy Require Import Model.RawText.
 From Soy Require Import Spec.Text.
 From Soy Require Import Proofs.RawTextProofs.
+From Soy Require Import Model.Ast Model.Token Model.Lexer Model.Parser Generated.Tables
+  Proofs.LexerProofs Proofs.LexBodyText Proofs.LexBodyTop Proofs.ParseBodyText Proofs.BodyTextMain.
 Open Scope N_scope.
 
 (* The loop of parse/rawtext.go returns exactly the Spec's normalisation, under
@@ -87,6 +89,82 @@ Proof. split; [vm_compute; reflexivity | repeat constructor; discriminate]. Qed.
 (* the hypotheses of C15_normalize_interior are satisfiable *)
 Example C15_ex_interior : normalize false false ([97] ++ [32; 10] ++ [60]) = [97; 60].
 Proof. vm_compute. reflexivity. Qed.
+
+(* ---- template level: scanner model + parser model against the Spec's body_text ---- *)
+
+(* For EVERY text T of plain bytes (no NUL, no brace; multi-byte runes and invalid UTF-8 included) on which the
+   Spec is defined (every block comment closed, no soydoc opener): the scanner model of parse/lexer.go
+   (lexText, maybeEmitText, allSpaceWithNewline, lexLineComment, lexBlockComment; unicode tables of the
+   toolchain), run on T as a file, returns an item list, and the parser model of parse/parse.go (SoyFile:
+   itemList, textOrTag with its comment flags, the text-item run, rawtext), run on these items under the entry
+   point's own budget, returns a list node whose children are all raw-text nodes and whose texts,
+   concatenated, are exactly body_text true T: comments removed, each piece between comments normalised by
+   [normalize] with a comment acting as a flagged end, white-space-only pieces with a line break dropped.
+   ([lexq], [unq], [inlen] -- the nested scanner, strconv.Unquote and the length used for error positions --
+   are arbitrary: this path never consults them.)
+   PARTIAL with respect to the design's body_text_spec: T is the whole input (so "//" at the very start is a
+   comment); bodies that also contain the special-character commands {sp} {nil} {\n} {\r} {\t} {lb} {rb} and
+   {literal} blocks, and text that follows a tag, are not covered by a theorem (the scanner's tag states are
+   not part of the string-level lemmas); they stay with the rendering check of the harness. *)
+Theorem C15_body_text_spec_partial : forall inlen lexq unq T out,
+  plain T -> body_text true T = Some out ->
+  exists items pos nodes st,
+    lex_items is_letter_tbl is_digit_tbl (lex_budget T) false T = Ok items /\
+    po_result (soy_file inlen lexq unq items) = POk (NList pos nodes) st /\
+    Forall is_raw nodes /\ concat (map raw_text_of nodes) = out.
+Proof.
+  intros inlen lexq unq. destruct tables_eof as [Hl Hd].
+  exact (body_text_impl_spec is_letter_tbl is_digit_tbl Hl Hd inlen lexq unq).
+Qed.
+Print Assumptions C15_body_text_spec_partial.
+
+(* the scanner alone, in the Spec's terms: the items of T are, piece by piece, the piece's text item (none
+   for an empty piece or one of white space with a line break), then the comment item, and EOF at the end *)
+Theorem C15_lex_text_pieces : forall T pcs,
+  plain T -> pieces MText true [] T = Some pcs ->
+  exists items, lex_items is_letter_tbl is_digit_tbl (lex_budget T) false T = Ok items /\ shape pcs items.
+Proof. destruct tables_eof as [Hl Hd]. exact (lex_body_items is_letter_tbl is_digit_tbl Hl Hd). Qed.
+Print Assumptions C15_lex_text_pieces.
+
+(* "http://x is not a comment", as a theorem about lexText: a text in which the Spec finds no comment -- every
+   "//" follows a byte that is not white space, there is no "/*" -- is sent as ONE text item, then EOF *)
+Theorem C15_http_not_comment : forall T,
+  plain T -> pieces MText true [] T = Some [T] ->
+  exists items e, lex_items is_letter_tbl is_digit_tbl (lex_budget T) false T = Ok items /\ t_typ e = itemEOF /\
+    (if droppable T then items = [e]
+     else exists p, items = [{| t_typ := itemText; t_pos := p; t_val := T |}; e]).
+Proof. destruct tables_eof as [Hl Hd]. exact (no_comment_one_item is_letter_tbl is_digit_tbl Hl Hd). Qed.
+Print Assumptions C15_http_not_comment.
+
+(* and the Spec finds no comment there: "//" after a byte that is neither white space nor '/' is text *)
+Theorem C15_slashes_after_nonspace : forall pw cur c v, ws c = false -> c <> 47 ->
+  pieces MText pw cur (c :: 47 :: 47 :: v) = pieces MText false (47 :: c :: cur) (47 :: v).
+Proof. exact slashes_after_nonspace. Qed.
+Print Assumptions C15_slashes_after_nonspace.
+
+(* non-vacuity: the hypotheses hold of "see http://x y", and scanner + parser models, run by computation on a
+   text with both kinds of comment, give the Spec's text *)
+Example C15_ex_http :
+  plain (b "see http://x y") /\ pieces MText true [] (b "see http://x y") = Some [b "see http://x y"] /\
+  droppable (b "see http://x y") = false.
+Proof.
+  split; [|split; vm_compute; reflexivity].
+  unfold plain. apply Forall_forall. intros c Hc. vm_compute in Hc.
+  repeat (destruct Hc as [<-|Hc]; [repeat split; discriminate|]). contradiction.
+Qed.
+
+Definition c15_ex_text : bstr := b "a //c" ++ [10] ++ b "b /* x */ see http://x c/*y*/".
+Example C15_ex_body_text_impl :
+  match lex_items is_letter_tbl is_digit_tbl (lex_budget c15_ex_text) false c15_ex_text with
+  | Ok items =>
+      match po_result (soy_file 0 (fun _ => []) (fun _ => None) items) with
+      | POk (NList _ nodes) _ => Some (concat (map raw_text_of nodes)) = body_text true c15_ex_text
+                                 /\ body_text true c15_ex_text = Some (b "absee http://x c")
+      | _ => False
+      end
+  | _ => False
+  end.
+Proof. vm_compute. split; reflexivity. Qed.
 
 (* template level (Spec only; the lexer and parser are tied to it by the
    correspondence harness): comments contribute nothing and cut the text into
